@@ -58,6 +58,11 @@ Definition parabolic_A (x : Vec) : Vec :=
 Definition parabolic_lhs (x : Vec) : Vec :=
   vadd (vadd (K (G parabolic_ev_ut x)) (C (G parabolic_ev_vt x))) (M (G parabolic_ev_at x)).
 
+(* the matrix assembled in _Solver_Apply_Dirichlet (generated parabolic_sysop) is this weighted sum *)
+Theorem parabolic_sysop_is_weighted_sum : forall x y i,
+  (G parabolic_sysop y) x i = parabolic_A x i.
+Proof. unfold parabolic_A; vf. Qed.
+
 (* row i of the system minus row i of the right-hand side of _Solver_Apply_Neumann
    = residual of the equation of motion at dof i *)
 Theorem parabolic_eom_identity : forall x i,
@@ -82,12 +87,26 @@ Proof.
   pose proof (parabolic_eom_identity (vadd y d) i). lra.
 Qed.
 
+(* what one step returns: K u^{n+1} + C v^{n+1} = load on every solved (free) dof (no inertia term) *)
+Theorem parabolic_step_correct : forall x i,
+  parabolic_A x i = G parabolic_rhs x i ->
+  K (G parabolic_up_u x) i + C (G parabolic_up_v x) i = bN i + F i.
+Proof using All.
+  intros x i H. pose proof (parabolic_discrete_eom x i H) as E. unfold parabolic_lhs, vadd in E.
+  assert (E1 : G parabolic_up_u x = G parabolic_ev_ut x) by (extensionality j; symmetry; apply parabolic_eval_consistent).
+  assert (E2 : G parabolic_up_v x = G parabolic_ev_vt x) by (extensionality j; symmetry; apply parabolic_eval_consistent).
+  assert (E3 : M (G parabolic_ev_at x) i = 0) by (autounfold with c05gen; rewrite (lin_zero _ HM); reflexivity).
+  rewrite E1, E2. lra.
+Qed.
+
 End S_parabolic.
 
 Print Assumptions parabolic_params_stored.
 Print Assumptions parabolic_update_rule.
 Print Assumptions parabolic_eval_consistent.
 Print Assumptions parabolic_coefs_are_derivatives.
+Print Assumptions parabolic_sysop_is_weighted_sum.
 Print Assumptions parabolic_eom_identity.
 Print Assumptions parabolic_discrete_eom.
 Print Assumptions parabolic_newton_consistent.
+Print Assumptions parabolic_step_correct.
